@@ -31,6 +31,7 @@ type Verifier struct {
 	maxPasses    int
 	rangeMS      int
 	funcs2       map[string]*ssa.Function // lifted-form SSA (footprint back ends)
+	sentinelErr  map[string]bool          // "G:pkg.Name" of error variables that are provably never nil
 	prog2        *ssa.Program
 }
 
@@ -82,7 +83,67 @@ func loadVerifier(root string) (*Verifier, error) {
 		v.funcs[pp+":"+funcKey(fn)] = fn
 	}
 	v.contracts = loadContracts(root, v.modPath)
+	v.sentinelErr = sentinelErrors(prog)
 	return v, nil
+}
+
+// sentinelErrors finds package-level variables of type error that are only ever assigned in their
+// own package initialiser, from errors.New / fmt.Errorf or a conversion of a concrete value
+// (io.EOF, ErrInvalidDHT, ...): reading one yields a non-nil error.  Derived from the SSA of the
+// whole program (dependencies included) on every run, not assumed.
+func sentinelErrors(prog *ssa.Program) map[string]bool {
+	type rec struct{ ok bool }
+	seen := map[*ssa.Global]*rec{}
+	for fn := range ssautil.AllFunctions(prog) {
+		for _, b := range fn.Blocks {
+			for _, ins := range b.Instrs {
+				st, ok := ins.(*ssa.Store)
+				if !ok {
+					continue
+				}
+				g, ok := st.Addr.(*ssa.Global)
+				if !ok {
+					continue
+				}
+				if _, isIface := deref(g.Type()).Underlying().(*types.Interface); !isIface {
+					continue
+				}
+				r := seen[g]
+				if r == nil {
+					r = &rec{ok: true}
+					seen[g] = r
+				}
+				good := false
+				if fn.Pkg == g.Pkg && fn.Name() == "init" && fn.Parent() == nil {
+					switch val := st.Val.(type) {
+					case *ssa.MakeInterface:
+						if _, isPtr := val.X.Type().Underlying().(*types.Pointer); !isPtr {
+							good = true
+						} else if _, isAlloc := val.X.(*ssa.Alloc); isAlloc {
+							good = true
+						}
+					case *ssa.Call:
+						if callee := val.Call.StaticCallee(); callee != nil && callee.Pkg != nil {
+							pn := callee.Pkg.Pkg.Path() + "." + callee.Name()
+							if pn == "errors.New" || pn == "fmt.Errorf" {
+								good = true
+							}
+						}
+					}
+				}
+				if !good {
+					r.ok = false
+				}
+			}
+		}
+	}
+	out := map[string]bool{}
+	for g, r := range seen {
+		if r.ok && deref(g.Type()).String() == "error" {
+			out["G:"+globalName(g)] = true
+		}
+	}
+	return out
 }
 
 var lineCache = map[string][]string{}
@@ -177,6 +238,23 @@ func (v *Verifier) splitCombos(splits []Split) [][]int64 {
 }
 
 // rootSide returns "l" or "r" when e is an access path rooted at that pair side.
+// refsGlobal: does fn's body mention the package-level variable pkg.name?
+func refsGlobal(fn *ssa.Function, pkg, name string) bool {
+	for _, b := range fn.Blocks {
+		for _, in := range b.Instrs {
+			for _, op := range in.Operands(nil) {
+				if op == nil || *op == nil {
+					continue
+				}
+				if g, ok := (*op).(*ssa.Global); ok && g.Name() == name && g.Pkg != nil && g.Pkg.Pkg.Path() == pkg {
+					return true
+				}
+			}
+		}
+	}
+	return false
+}
+
 func rootSide(e ast.Expr) string {
 	switch t := e.(type) {
 	case *ast.SelectorExpr:
@@ -302,6 +380,7 @@ func (v *Verifier) verifyFunc(fc *FuncContract) []*Exec {
 
 func (v *Verifier) genFunc(fc *FuncContract, fn *ssa.Function, combo []int64, mustWrap map[string]bool) *Exec {
 	x := newExec(v, fc.Pkg, fc.Key, "")
+	x.funcProps = fc.Props
 	x.mustWrap = mustWrap
 	for _, r := range fc.Reveal {
 		x.reveal[r] = true
@@ -343,10 +422,29 @@ func (v *Verifier) genFunc(fc *FuncContract, fn *ssa.Function, combo []int64, mu
 	// invariants of package-level tables (established by init, checked by constant evaluation,
 	// write-protected by the C18 footprint obligation)
 	for _, gi := range v.contracts.Globals {
+		genv := env
 		if gi.Pkg != fc.Pkg {
-			continue
+			// a table of another package: assumed where the function body reads it directly
+			if !refsGlobal(fn, gi.Pkg, gi.Name) {
+				continue
+			}
+			var anyFn *ssa.Function
+			for k, f := range v.funcs {
+				if strings.HasPrefix(k, gi.Pkg+":") {
+					anyFn = f
+					break
+				}
+			}
+			if anyFn == nil {
+				continue
+			}
+			ge := *env
+			ge.fn = anyFn
+			ge.fr = nil
+			ge.vars = map[string]Val{}
+			genv = &ge
 		}
-		t, err := x.specBool(env, gi.Clause.Expr)
+		t, err := x.specBool(genv, gi.Clause.Expr)
 		if err != nil {
 			x.bindingError(fmt.Sprintf("global invariant %q", gi.Clause.Src), err.Error(), gi.Clause.File, gi.Clause.Line)
 			continue
